@@ -56,6 +56,9 @@ structure St where
   cdedup : Buf Nat
   /-- `OperationReceived` events returned to the consumer: (session id, hash), in order -/
   reports : List (Nat × Nat)
+  /-- sessions the event stream has removed from its `SessionTopicMap` because a forward to
+      them failed (their live channel has no receiver) -/
+  dropped : List Nat := []
 deriving Repr
 
 inductive Act where
@@ -69,6 +72,10 @@ inductive Act where
   | remoteStep (s : Nat)
   /-- the manager event stream takes the next `OperationReceived` event of session `s` -/
   | consume (s : Nat)
+  /-- sync phase of session `s` (`LogSync::run`, state `Sync`): the remote sends `Operation(op)`;
+      the hash goes into the buffer that is later handed to the live loop, and if new an
+      `OperationReceived` event is emitted — with or without live mode -/
+  | syncRecv (s op : Nat)
 deriving DecidableEq, Repr
 
 def newSess (sid topic : Nat) (live : Bool) (cap : Nat) : Sess :=
@@ -100,9 +107,17 @@ def Sess.stepRemote (s : Sess) : Sess :=
                evQ := if (s.dedup.insert x).2 then s.evQ ++ [x] else s.evQ }
   else s
 
-/-- `next_event` for an `OperationReceived` of session `sid`: forward to every other session of
-    the same topic (a session without live mode has no receiver: the send fails and nothing is
-    delivered), then consumer de-duplication. -/
+/-- Sync-phase receive: `if !dedup.insert(header.hash()) { continue }`, else emit the event. -/
+def Sess.syncRecv (s : Sess) (x : Nat) : Sess :=
+  { s with dedup := (s.dedup.insert x).1,
+           log := if (s.dedup.insert x).2 then s.log ++ [(Src.remote, x)] else s.log,
+           evQ := if (s.dedup.insert x).2 then s.evQ ++ [x] else s.evQ }
+
+/-- `next_event` for an `OperationReceived` of session `sid`: if the session is no longer in the
+    stream's topic map the event is swallowed (`continue`); otherwise forward to every other
+    session of the same topic still in the map (a session without live mode has no receiver:
+    the send fails, nothing is delivered and the session is removed from the map), then consumer
+    de-duplication. -/
 def St.consume (st : St) (sid : Nat) : St :=
   match st.sess.find? (fun s => s.sid = sid) with
   | none => st
@@ -110,11 +125,16 @@ def St.consume (st : St) (sid : Nat) : St :=
     match s.evQ with
     | [] => st
     | x :: q =>
+      if st.dropped.contains sid then
+        { st with sess := updSess sid (fun s => { s with evQ := q }) st.sess }
+      else
       { sess := (updSess sid (fun s => { s with evQ := q }) st.sess).map (fun s' =>
           if s'.sid ≠ sid ∧ s'.topic = s.topic ∧ s'.live = true then { s' with liveQ := s'.liveQ ++ [x] }
           else s'),
         cdedup := (st.cdedup.insert x).1,
-        reports := if (st.cdedup.insert x).2 then st.reports ++ [(sid, x)] else st.reports }
+        reports := if (st.cdedup.insert x).2 then st.reports ++ [(sid, x)] else st.reports,
+        dropped := st.dropped ++ ((st.sess.filter (fun s' =>
+          s'.sid ≠ sid ∧ s'.topic = s.topic ∧ s'.live = false ∧ !st.dropped.contains s'.sid)).map (·.sid)) }
 
 def St.step (st : St) : Act → St
   | .remote sid op => { st with sess := updSess sid (fun s => if s.live then { s with remoteQ := s.remoteQ ++ [op] } else s) st.sess }
@@ -122,6 +142,7 @@ def St.step (st : St) : Act → St
   | .liveStep sid => { st with sess := updSess sid Sess.stepLive st.sess }
   | .remoteStep sid => { st with sess := updSess sid Sess.stepRemote st.sess }
   | .consume sid => st.consume sid
+  | .syncRecv sid op => { st with sess := updSess sid (fun s => s.syncRecv op) st.sess }
 
 def St.run (st : St) (acts : List Act) : St := acts.foldl St.step st
 
@@ -130,6 +151,14 @@ def St.run (st : St) (acts : List Act) : St := acts.foldl St.step st
 /-- One poll of session `sid`'s `run` future: the biased `select!` loop takes everything from
     `live_mode_rx` first, then the remote's messages (nothing new arrives during a poll). -/
 def pollActs (st : St) (sid : Nat) : List Act :=
+  match st.sess.find? (fun s => s.sid = sid) with
+  | none => []
+  | some s => List.replicate s.liveQ.length (Act.liveStep sid) ++ List.replicate s.remoteQ.length (Act.remoteStep sid)
+
+/-- The whole sync phase of session `sid` in which the remote sends `ops`, up to the first time
+    the session blocks in live mode (it then has emptied its live channel). -/
+def syncActs (st : St) (sid : Nat) (ops : List Nat) : List Act :=
+  ops.map (Act.syncRecv sid) ++
   match st.sess.find? (fun s => s.sid = sid) with
   | none => []
   | some s => List.replicate s.liveQ.length (Act.liveStep sid) ++ List.replicate s.remoteQ.length (Act.remoteStep sid)
